@@ -204,6 +204,51 @@ var famLc = NewFamily("C17.path", func(c lcCase) (*Fail, bool) {
 	return f, len(c.Path) > 0
 })
 
+type retryCase struct {
+	T    string `json:"transform"`
+	E    string `json:"entropy"`
+	Jobs uint   `json:"jobs"`
+	Len  int    `json:"len"`
+	K    int    `json:"failing_sink_call"`
+}
+
+func (r retryCase) String() string { return fmt.Sprintf("%s/%s|%d|%d|%d", r.T, r.E, r.Jobs, r.Len, r.K) }
+
+// A sink whose K-th Write fails once; every call is retried by the caller until it succeeds (at most
+// 3 times). After the Close that finally succeeds: GetWritten == bytes at the sink == fault-free stream.
+var famRetry = NewFamily("C17.retry", func(r retryCase) (*Fail, bool) {
+	data := shape("text", r.Len)
+	p := Params{r.T, r.E, lcB, r.Jobs, 32, -1, false, false}
+	ref, where, err := compress(data, p)
+	if err != nil {
+		return failf("harness-compress", "%s: %v", where, err), false
+	}
+	sk := &faultSink{plan: map[int]string{r.K: "err"}, from: -1}
+	w, err := kio.NewWriterWithCtx(sk, p.ctx())
+	if err != nil {
+		return failf("harness-ctor", "%v", err), false
+	}
+	if _, err := w.Write(data); err != nil {
+		return nil, false // the failure hit a Write: the stream is in error state, C08's business
+	}
+	var cerr error
+	for i := 0; i < 3; i++ {
+		if cerr = w.Close(); cerr == nil {
+			break
+		}
+	}
+	if cerr != nil || sk.faults == 0 {
+		return nil, false
+	}
+	if !bytes.Equal(sk.buf.Bytes(), ref) {
+		return nil, false // incomplete stream after a successful Close: C08's oracle
+	}
+	if got := w.GetWritten(); got != uint64(sk.buf.Len()) {
+		return failf("getwritten-after-retried-close", "%s: the sink rejected write #%d once, the retried Close succeeded and the sink holds the complete stream of %d bytes, but GetWritten() = %d", r, r.K, sk.buf.Len(), got), true
+	}
+	return nil, true
+})
+
 func init() {
 	register("C17", "model_checking", func(c *Ctx) {
 		c.Rule("explicit-state BFS over call sequences on the real Writer (alphabet Write(0), Write(1), Write(B-1), Write(B), Write(B+1), Write(jobs*B), Close, GetWritten) and Reader (Read(0), Read(1), Read(B), Read(2B+1), Close, GetRead) to depth 6 (quick) / 8 (thorough), jobs 1..3, header and headerless, reader streams of {0,1,B,2.5B,(2*jobs+1)B} bytes, against a model {open,closed} + bytes accepted/delivered. Every transition is validated on a fresh object (replay of the shortest path + the call): return values, counters, sink/source close count, and - after a validating Close - the sink decodes to exactly the accepted bytes (resp. the rest of the stream is delivered intact). States merge on (configuration, closed, bytes accepted/delivered, eof): the implementation's remaining state (buffers, block ids) is a function of the accepted/delivered byte count. states/transitions as counted; each transition is a trace replayed on the implementation")
@@ -277,5 +322,21 @@ func init() {
 		}
 		c.AddStates(int64(len(states)), total, total)
 		c.Extra("bfs_depth", depth)
+		// "after a successful Close GetWritten equals the number of bytes the sink received" also when
+		// the successful Close is a retry: the sink rejects its k-th write once, Close is called again
+		famRetry.Each(c, 0, func(emit func(retryCase)) {
+			for _, cd := range [][2]string{{"NONE", "NONE"}, {"NONE", "HUFFMAN"}, {"LZ", "ANS0"}} {
+				for _, jobs := range []uint{1, 2} {
+					for n := 0; n <= 300; n++ {
+						emit(retryCase{T: cd[0], E: cd[1], Jobs: jobs, Len: n, K: 0})
+					}
+					for _, n := range []int{lcB - 1, lcB, lcB + 1, 2*lcB + 77, 300000, 300001, 300007} {
+						for k := 0; k < 3; k++ {
+							emit(retryCase{T: cd[0], E: cd[1], Jobs: jobs, Len: n, K: k})
+						}
+					}
+				}
+			}
+		})
 	})
 }
